@@ -130,6 +130,8 @@ type MXPlan struct {
 	// statuses of the n-th message (-1 = never).
 	DropAfterStatuses []int
 	NonASCIIText      bool
+	// Quit421: QUIT is answered with 421 and the connection stays open.
+	Quit421 bool
 }
 
 // MXTx is one message the server received content for.
@@ -474,6 +476,15 @@ func (m *ScriptedMX) handle(raw net.Conn, id int) {
 		case up == "NOOP":
 			send("250 2.0.0 ok")
 		case up == "QUIT":
+			if m.Plan.Quit421 {
+				// answers 421 and keeps the connection open (a peer - or a
+				// man in the middle - that does not hang up by itself)
+				if s := simrt.Cur(); s != nil {
+					s.Stat("fault_mx_quit_421")
+				}
+				send("421 4.3.2 service shutting down")
+				continue
+			}
 			send("221 2.0.0 bye")
 			return
 		default:
